@@ -360,14 +360,17 @@ Proof.
   destruct (max_repeat_length <? _); exact I.
 Qed.
 
+Lemma limited_text_ok : forall t, ok b (limited_text t).
+Proof. intros t. unfold limited_text. destruct (max_text_length <? byte_len t)%Z; exact I. Qed.
+
 Lemma replace_body_ok : forall args, (3 <= length args <= 4)%nat -> ok b (replace_body args).
 Proof.
   intros args H. unfold replace_body.
   apply with_arg_ok; [lia|]. intros va0. destruct (to_text va0); [|exact I].
   apply with_arg_ok; [lia|]. intros va1. destruct (to_text va1); [|exact I].
   apply with_arg_ok; [lia|]. intros va2. destruct (to_text va2); [|exact I].
-  destruct (Nat.eqb (length args) 4) eqn:E; [|exact I].
-  apply Nat.eqb_eq in E. apply with_arg_ok; [lia|]. intros va3. destruct (to_integer va3); exact I.
+  destruct (Nat.eqb (length args) 4) eqn:E; [|apply limited_text_ok].
+  apply Nat.eqb_eq in E. apply with_arg_ok; [lia|]. intros va3. destruct (to_integer va3); [apply limited_text_ok|exact I].
 Qed.
 
 Lemma round_body_ok : forall d n, ok b (round_body d n).
@@ -590,10 +593,10 @@ Proof.
   - apply one_arg_function_ok. intros v. unfold count_fn. destruct v; exact I.
   - apply two_arg_function_ok. intros x y. unfold default_fn. destruct (to_text x) as [[|c t]|]; exact I.
   - apply two_arg_function_ok. intros x y. unfold join_fn. destruct (to_array x) as [items|]; [|exact I].
-    destruct (to_text y); [|exact I]. destruct (texts_of items); exact I.
+    destruct (to_text y); [|exact I]. destruct (texts_of items); [apply limited_text_ok|exact I].
   - apply one_array_function_ok. intros items. exact I.
   - apply one_array_function_ok. intros items. unfold sum_body. destruct (sum_numbers items decimal_zero); exact I.
-  - apply two_array_function_ok. intros x y. exact I.
+  - apply two_array_function_ok. intros x y. unfold concat_body. destruct (max_render_size <? _)%Z; exact I.
   - apply one_arg_function_ok. intros v. exact I.
   - apply one_text_function_ok. intros t. exact I.
   - apply two_text_function_ok. intros x y. exact I.
@@ -616,20 +619,20 @@ Proof.
     + apply ext_ok.
 Qed.
 
-Lemma foreach_items_ok : forall bb call_f items other acc,
-  (forall item, ok bb (call_f (item :: other))) -> ok bb (foreach_items call_f items other acc).
+Lemma foreach_items_ok : forall bb call_f items other acc budget,
+  (forall item, ok bb (call_f (item :: other))) -> ok bb (foreach_items call_f items other acc budget).
 Proof.
-  intros bb call_f items other. induction items as [|item r IH]; intros acc H; simpl; [exact I|].
+  intros bb call_f items other. induction items as [|item r IH]; intros acc budget H; simpl; [exact I|].
   pose proof (H item) as H1. destruct (call_f (item :: other)) as [v|c|]; try assumption.
-  destruct (is_err v); [exact I|]. apply IH. assumption.
+  destruct (is_err v); [exact I|]. destruct (_ <? 0)%Z; [exact I|]. apply IH. assumption.
 Qed.
 
-Lemma foreach_items_in_ok : forall bb call_f items other acc,
-  (forall item, In item items -> ok bb (call_f (item :: other))) -> ok bb (foreach_items call_f items other acc).
+Lemma foreach_items_in_ok : forall bb call_f items other acc budget,
+  (forall item, In item items -> ok bb (call_f (item :: other))) -> ok bb (foreach_items call_f items other acc budget).
 Proof.
-  intros bb call_f items other. induction items as [|item r IH]; intros acc H; simpl; [exact I|].
+  intros bb call_f items other. induction items as [|item r IH]; intros acc budget H; simpl; [exact I|].
   pose proof (H item (or_introl eq_refl)) as H1. destruct (call_f (item :: other)) as [v|c|]; try assumption.
-  destruct (is_err v); [exact I|]. apply IH. intros i Hi. apply H. right. assumption.
+  destruct (is_err v); [exact I|]. destruct (_ <? 0)%Z; [exact I|]. apply IH. intros i Hi. apply H. right. assumption.
 Qed.
 
 Lemma with_rest_skipn : forall args k f, (k <= length args)%nat -> with_rest args k f = f (skipn k args).
@@ -730,7 +733,8 @@ Proof.
   intros x y. unfold mul_body. cbv zeta.
   destruct (exponent_out_of_range (dexp (dec_canonical x) + dexp (dec_canonical y))) eqn:E; [exact I|].
   apply exponent_in_range in E. unfold dec_mul.
-  replace (in_int32 (dexp (dec_canonical x) + dexp (dec_canonical y))) with true; [exact I|].
+  replace (in_int32 (dexp (dec_canonical x) + dexp (dec_canonical y))) with true;
+    [destruct (exponent_out_of_range (num_digits _ + num_digits _)); exact I|].
   symmetry. unfold in_int32, int32_min, int32_max. apply andb_true_iff. split; apply Z.leb_le; lia.
 Qed.
 
@@ -749,7 +753,7 @@ Qed.
 Lemma eval_binop_ok : forall fp op x y, frac_pow_well_behaved fp -> ok true (eval_binop fp op x y).
 Proof.
   intros fp op x y Hfp. destruct op; simpl; unfold textual_binary, numerical_binary, cmp_is;
-    try (destruct (to_text x); [|exact I]; destruct (to_text y); exact I);
+    try (destruct (to_text x); [|exact I]; destruct (to_text y); [|exact I]; try destruct (max_text_length <? _)%Z; exact I);
     (destruct (to_number x) as [n1|]; [|exact I]; destruct (to_number y) as [n2|]; [|exact I]); try exact I.
   - apply ok_weaken. apply mul_body_ok.
   - destruct (dec_eqb n2 (Dec 0 0)) eqn:E; [exact I|].
@@ -764,7 +768,7 @@ Qed.
 Lemma eval_binop_no_panic : forall fp op x y, op <> ODiv -> op <> OPow -> ok false (eval_binop fp op x y).
 Proof.
   intros fp op x y H2 H3. destruct op; try contradiction; simpl; unfold textual_binary, numerical_binary, cmp_is;
-    try (destruct (to_text x); [|exact I]; destruct (to_text y); exact I);
+    try (destruct (to_text x); [|exact I]; destruct (to_text y); [|exact I]; try destruct (max_text_length <? _)%Z; exact I);
     (destruct (to_number x) as [n1|]; [|exact I]; destruct (to_number y) as [n2|]; [|exact I]); try exact I.
   apply mul_body_ok.
 Qed.
@@ -1248,6 +1252,102 @@ Proof.
 Qed.
 
 End Work.
+
+(* ------------------------------------------------------------------------------------------------ *)
+(* size limits (664d88e, 1fba51e): what &, replace, join, concat, foreach and * return is bounded, and a value that is
+   converted to text is within the size budget *)
+
+Lemma byte_len_app : forall a b, byte_len (a ++ b) = byte_len a + byte_len b.
+Proof. intros a b. induction a as [|c a IH]; simpl; [reflexivity|]. rewrite IH. lia. Qed.
+
+Lemma byte_len_nonneg : forall a, 0 <= byte_len a.
+Proof.
+  induction a as [|c a IH]; simpl; [lia|]. unfold rune_bytes.
+  destruct (c <? 128)%N; [lia|]. destruct (c <? 2048)%N; [lia|]. destruct (c <? 65536)%N; lia.
+Qed.
+
+(* a text result is within types.MaxTextLength *)
+Definition text_within (r : res) : Prop :=
+  match r with Ret (VText t) => byte_len t <= max_text_length | _ => True end.
+
+Lemma limited_text_within : forall t, text_within (limited_text t).
+Proof.
+  intros t. unfold limited_text. destruct (max_text_length <? byte_len t) eqn:E; [exact I|].
+  apply Z.ltb_ge in E. exact E.
+Qed.
+
+Lemma concat_op_within : forall fp x y, text_within (eval_binop fp OConcat x y).
+Proof.
+  intros fp x y. simpl. unfold textual_binary.
+  destruct (to_text x) as [a|]; [|exact I]. destruct (to_text y) as [b|]; [|exact I].
+  destruct (max_text_length <? byte_len a + byte_len b) eqn:E; [exact I|].
+  apply Z.ltb_ge in E. simpl. rewrite byte_len_app. exact E.
+Qed.
+
+Lemma with_arg_within : forall args k f, (forall v, text_within (f v)) -> text_within (with_arg args k f).
+Proof. intros args k f H. unfold with_arg. destruct (nth_error args k); [apply H|exact I]. Qed.
+
+Lemma replace_body_within : forall args, text_within (replace_body args).
+Proof.
+  intros args. unfold replace_body.
+  apply with_arg_within. intros v0. destruct (to_text v0); [|exact I].
+  apply with_arg_within. intros v1. destruct (to_text v1); [|exact I].
+  apply with_arg_within. intros v2. destruct (to_text v2); [|exact I].
+  destruct (Nat.eqb (length args) 4); [|apply limited_text_within].
+  apply with_arg_within. intros v3. destruct (to_integer v3); [apply limited_text_within|exact I].
+Qed.
+
+Lemma join_fn_within : forall x y, text_within (join_fn x y).
+Proof.
+  intros x y. unfold join_fn. destruct (to_array x); [|exact I]. destruct (to_text y); [|exact I].
+  destruct (texts_of _); [apply limited_text_within|exact I].
+Qed.
+
+(* concat returns at most types.MaxRenderSize items *)
+Lemma concat_body_within : forall x y items, concat_body x y = Ret (VArray items) -> zlen items <= max_render_size.
+Proof.
+  intros x y items. unfold concat_body. destruct (max_render_size <? zlen x + zlen y) eqn:E; [discriminate|].
+  intros H. injection H as <-. apply Z.ltb_ge in E. unfold zlen in *. rewrite app_length. lia.
+Qed.
+
+(* a product: the digits of the (canonical) factors add up to at most the limit *)
+Lemma mul_body_digits : forall x y p, mul_body x y = Ret (VNum p) ->
+  num_digits (dec_canonical x) + num_digits (dec_canonical y) <= max_number_exponent.
+Proof.
+  intros x y p. unfold mul_body. cbv zeta. destruct (exponent_out_of_range (dexp _ + dexp _)); [discriminate|].
+  destruct (exponent_out_of_range (num_digits _ + num_digits _)) eqn:E; [discriminate|]. intros _.
+  unfold exponent_out_of_range in E. apply orb_false_iff in E as [_ E]. apply Z.ltb_ge in E. exact E.
+Qed.
+
+(* a value that ToXText converts is within the size budget (the walk of the budget and the writing are in proportion
+   to its cost) *)
+Lemma to_text_within_budget : forall v t, to_text v = Ok t -> v = VNil \/ value_cost false 0 v <= max_render_size.
+Proof.
+  intros v t. unfold to_text, too_large.
+  destruct v; try (intros _; left; reflexivity); try discriminate;
+    (destruct (max_render_size <? _) eqn:E; [discriminate|]; intros _; right; apply Z.ltb_ge in E; exact E).
+Qed.
+
+(* what foreach collects: the costs (as JSON) of the items add up to at most the budget it starts with *)
+Fixpoint items_cost (l : list value) : Z :=
+  match l with [] => 0 | x :: r => value_cost true 0 x + items_cost r end.
+
+Lemma items_cost_app : forall a b, items_cost (a ++ b) = items_cost a + items_cost b.
+Proof. intros a b. induction a as [|x a IH]; simpl; [reflexivity|]. rewrite IH. lia. Qed.
+
+Lemma foreach_items_budget : forall call_f items other acc budget out,
+  0 <= budget -> foreach_items call_f items other acc budget = Ret (VArray out) ->
+  exists rest, out = rev acc ++ rest /\ items_cost rest <= budget.
+Proof.
+  intros call_f items other. induction items as [|item r IH]; intros acc budget out Hb; simpl.
+  - intros H. injection H as <-. exists []. rewrite app_nil_r. split; [reflexivity|simpl; lia].
+  - destruct (call_f (item :: other)) as [v|c|]; try discriminate.
+    destruct (is_err v) eqn:Ee; [destruct v; discriminate|].
+    destruct (budget - value_cost true 0 v <? 0) eqn:El; [discriminate|]. apply Z.ltb_ge in El.
+    intros H. destruct (IH _ _ _ El H) as [rest [H1 H2]]. exists (v :: rest). split.
+    + rewrite H1. simpl. rewrite <- app_assoc. reflexivity.
+    + simpl. lia.
+Qed.
 
 (* ------------------------------------------------------------------------------------------------ *)
 (* closed statements (re-exported by props/C04.v) *)
